@@ -1,5 +1,63 @@
-import SudsModel.Xml.Prefix
+import SudsModel.Lemmas.Prefix
+/-!
+# C05 — Wire-format options never change what a request means
+
+Model: `SudsModel/Xml/Prefix.lean` (promotePrefixes, PrefixNormalizer, refitPrefixes, infoset).
+PARTIAL: the whole-tree statements (`promoteStmt`, `normalizeStmt`) are written down but not proved;
+what is proved is the heart of the argument — one hoist step captures nothing and the donor keeps
+its binding — and the witness that the un-repaired rule does capture (D5). The whole-tree claim
+rests on the correspondence (model = code on generated trees) plus the expat oracle.
+-/
 namespace Suds.Props.C05
 open Suds.Xml
-example : True := trivial
+
+/-- Full statement (not proved): promotion preserves the infoset of every tree. -/
+def promoteStmt : Prop := ∀ t : Elem, (t.promote true).info [] |>.beq (t.info []) = true
+
+/-- One hoist step, other uses: nothing that resolved below the parent changes its namespace. -/
+theorem hoist_keeps_other_uses (p u : String) (T : Table) (e : Option String) (gamma inner : Ctx)
+    (hT : lookup p T = none)
+    (hin : resolvePrefix.resolveUp p gamma = none ∨ resolvePrefix.resolveUp p gamma = some u)
+    (q v : String)
+    (h : resolvePrefix.resolveUp q (inner ++ (T, e) :: gamma) = some v) :
+    resolvePrefix.resolveUp q (inner ++ (dictSet T p u, e) :: gamma) = some v :=
+  Suds.Xml.hoist_keeps_other_uses p u T e gamma inner hT hin q v h
+
+/-- One hoist step, the donor: what resolved at or below the child that gave the declaration away
+still resolves to the same namespace. -/
+theorem hoist_keeps_donor_uses (p u : String) (m T : Table) (ec e : Option String) (gamma inner : Ctx)
+    (hm : lookup p m = some u) (hT : lookup p T = none) (q v : String)
+    (h : resolvePrefix.resolveUp q (inner ++ (m, ec) :: (T, e) :: gamma) = some v) :
+    resolvePrefix.resolveUp q (inner ++ (tableErase p m, ec) :: (dictSet T p u, e) :: gamma) = some v :=
+  Suds.Xml.hoist_keeps_donor_uses p u m T ec e gamma inner hm hT q v h
+
+/-- The tree of D5: `p` is bound to `urn:one` on the envelope and re-declared as `urn:two` on a
+leaf; a sibling subtree uses `p`. -/
+def d5 : Elem :=
+  .mk 1 (some "e") "Envelope" none [("e", "urn:env"), ("p", "urn:one")] [] none
+    [.mk 2 (some "e") "Body" none [] [] none
+      [.mk 3 none "r" none [] [] none
+        [.mk 4 none "x" none [("p", "urn:two")] [] none [],
+         .mk 5 none "y" none [] [] none [.mk 6 (some "p") "z" none [] [] none []]]]]
+
+/-- D5 (fixed in the repository): the old rule (hoist whenever the parent has no *own* binding)
+captures — `p:z` changes namespace; the repaired rule does not. -/
+theorem capture_witness :
+    ((d5.promote false).info []).beq (d5.info []) = false ∧ ((d5.promote true).info []).beq (d5.info []) = true := by
+  decide
+
+/-- Promotion never touches names, prefixes, attributes or text: only declaration tables move. -/
+theorem promote_keeps_names (fixed : Bool) (i : Nat) (p : Option String) (n : String) (e : Option String)
+    (m : Table) (a : List Attr) (t : Option String) (kids : List Elem) :
+    ((Elem.mk i p n e m a t kids).promote fixed).name = n ∧ ((Elem.mk i p n e m a t kids).promote fixed).pfx = p ∧
+    ((Elem.mk i p n e m a t kids).promote fixed).attrs = a ∧ ((Elem.mk i p n e m a t kids).promote fixed).text = t := by
+  simp [Elem.promote, Elem.name, Elem.pfx, Elem.attrs, Elem.text]
+
+/-- After `refitPrefixes` no element carries a prefix. -/
+theorem refit_removes_element_prefix (ctx : Ctx) (below : Bool) (e : Elem) : (e.refit ctx below).pfx = none := by
+  cases e; simp [Elem.refit, Elem.pfx]
+
+example : (d5.promote true).nsp = [("e", "urn:env"), ("p", "urn:one")] := by decide
+example : ((d5.refit [] false).kids.map Elem.expns) = [some "urn:env"] := by decide
+
 end Suds.Props.C05
